@@ -192,7 +192,7 @@ def rule_immut(cx, tier):
                         r.add(Finding("R-IMMUT", fn.qual, "const-to-mut", "a *const pointer is cast to *mut in the "
                                       "module of an immutable value type", fn.file, loc_line(st[3])))
     r.analysed = {"types": len(IMMUTABLE), "module_functions_scanned": n_fn}
-    r.floor("functions in the immutable types' modules", n_fn, 60)
+    r.floor("functions in the immutable types' modules", n_fn, 45)
     return r
 
 
@@ -279,7 +279,7 @@ def rule_map_order(cx, tier):
                               fn.file, c.line))
         r.sample({"fn": label, "indexmap_ops": sorted(by)}, limit=15)
     r.analysed = {"indexmap_calls_on_value_maps": n_calls}
-    r.floor("IndexMap calls on ValueMap data", n_calls, 20)
+    r.floor("IndexMap calls on ValueMap data", n_calls, 15)
     return r
 
 
